@@ -86,6 +86,23 @@ ValidRankSpec(c, rs, frac) ==
     /\ (rs = "none" => c.op = "tucker" /\ c.rank = c.shape)
     /\ (rs = "float" => frac \in Fractions) /\ (rs # "float" => frac = 0)
 
+\* magnitude regime: the tensor handed to the routine is X * 2^pow2 (an exact scaling in binary floating
+\* point); the contract is scale invariant, err^2 is divided by 4^pow2 (exactly) before it is logged.
+\* 2^66 ~ 7e19, 2^400 ~ 2.6e120.  Only float64 can hold these.
+Pow2s == {-400, -66, 0, 66, 400}
+
+\* Combinations left out of the domain because the unchanged library mishandles them today (reported as
+\* defects with proposed fixes /verif/fixes/F-05d.diff, F-05e.diff; delete a line here once it is repaired):
+\*  F-05d  symeig_svd clips the Gram eigenvalues at machine eps in ABSOLUTE terms: for data of magnitude
+\*         << 1e-8 every singular value is floored at 1.5e-8 and the truncation picks arbitrary directions;
+\*         for data of magnitude >> 1 the round-off eigenvalues of a rank-deficient Gram matrix pass the
+\*         floor or are divided by it, giving huge / non-finite vectors;
+\*  F-05e  randomized_range_finder draws its Gaussian test matrix in the dtype of the input: for integer
+\*         arrays it is truncated to integers (68% zeros), so the sketch no longer covers the range.
+KnownBadCombination(svd, dtype, pow2) ==
+    \/ svd = "symeig_svd" /\ pow2 # 0
+    \/ svd = "randomized_svd" /\ dtype \in {"int64", "int32"}
+
 Algs == {"tucker", "tt", "ttm", "tr"}
 Svds == {"truncated_svd", "symeig_svd", "randomized_svd"}
 Iters == {0, 1, 50}        \* n_iter_max of HOOI (0 = the HOSVD initialisation itself)
@@ -111,11 +128,14 @@ Merged(shape) == LET n == Len(shape) \div 2 IN [k \in 1..n |-> shape[k] * shape[
 \* larger than min(dims of that unfolding) must raise; later ranks are clipped like TT ranks (the working
 \* matrix carries the boundary rank on its column side).
 TRRot(rank, mode) == LET N == Len(rank) - 1 IN [j \in 1..N |-> rank[((j - 1 + mode) % N) + 1]]
+\* documented: the first factor holds r_mode * r_{mode+1} singular vectors of the (d_mode x rest) unfolding,
+\* which has only min(d_mode, rest) of them -- on BOTH sides
+TRFeasible(shape, rank, mode) ==
+    LET D == RotL(shape, mode)  R == TRRot(rank, mode) IN R[1] * R[2] <= MinOf(D[1], Prod(Tail(D)))
 TRRaises(shape, rank, mode) ==
-    LET D == RotL(shape, mode)  R == TRRot(rank, mode) IN
     \/ Len(rank) # Len(shape) + 1
     \/ rank[1] # rank[Len(rank)]
-    \/ R[1] * R[2] > MinOf(D[1], Prod(Tail(D)))
+    \/ ~TRFeasible(shape, rank, mode)
 ExpTRRot(shape, rank, mode) ==       \* in rotated order, E[1] = boundary rank of the first computed factor
     LET D == RotL(shape, mode)  R == TRRot(rank, mode)  N == Len(shape)
         E[j \in 0..(N - 1)] == IF j = 0 THEN R[1] ELSE IF j = 1 THEN R[2]
@@ -170,7 +190,7 @@ RandCovered(c, rkbound) ==
 \* ------------------------------------------------------------------ structural validity of a configuration
 ValidCfg(c) ==
     /\ c.op \in Algs
-    /\ Len(c.shape) \in 2..5 /\ \A k \in 1..Len(c.shape) : c.shape[k] \in 1..6
+    /\ Len(c.shape) \in 2..5 /\ \A k \in 1..Len(c.shape) : c.shape[k] \in 1..16
     /\ \A k \in 1..Len(c.rank) : c.rank[k] \in 1..30
     /\ c.mode \in 0..(Len(c.shape) - 1) /\ (c.op # "tr" => c.mode = 0)
     /\ CASE c.op = "tucker" -> Len(c.rank) = Len(c.shape)
@@ -191,7 +211,7 @@ SortDesc(s) ==
 Mags(t) == SortDesc([q \in 1..Len(t.vals) |-> Abs(t.vals[q])])
 
 ValidMatching(t) ==
-    /\ Len(t.shape) \in 2..5 /\ \A k \in 1..Len(t.shape) : t.shape[k] \in 1..6
+    /\ Len(t.shape) \in 2..5 /\ \A k \in 1..Len(t.shape) : t.shape[k] \in 1..16
     /\ Len(t.idx) \in 1..4 /\ Len(t.vals) = Len(t.idx)
     /\ \A q \in 1..Len(t.idx) : /\ Len(t.idx[q]) = Len(t.shape)
                                  /\ \A k \in 1..Len(t.shape) : t.idx[q][k] \in 0..(t.shape[k] - 1)
@@ -276,9 +296,27 @@ TTRankVecs(shape) ==
     IN  {<<1>> \o r \o <<1>> : r \in {x \in [1..(N - 1) -> 1..MaxTTRank] : \A k \in 1..(N - 1) : x[k] <= cap(k)}}
         \cup {<<2>> \o [k \in 1..(N - 1) |-> 1] \o <<1>>, <<1>> \o [k \in 1..(N - 1) |-> 2] \o <<2>>}   \* bad boundary: must raise
 
+\* rank lists around the feasibility boundary of the first SVD, on both sides, for every starting mode m:
+\* r_m * r_{m+1} in {lo, lo + 1, hi, hi + 1} (as 1 x t, t x 1) and {lo, lo + 2, hi, hi + 2} (as 2 x t/2), where
+\* lo / hi = the smaller / larger side of the first unfolding -- feasible iff the product is <= lo.  On
+\* unbalanced shapes (one mode longer than the product of the others) lo is the COLUMN side.
+TRBoundaryVecs(shape) ==
+    LET N == Len(shape)
+        Mk(m, x, y) == LET r == [k \in 1..N |-> IF k = m + 1 THEN x ELSE IF k = ((m + 1) % N) + 1 THEN y ELSE 2]
+                       IN  r \o <<r[1]>>
+    IN  UNION {
+          LET D == RotL(shape, m)
+              lo == MinOf(D[1], Prod(Tail(D)))
+              hi == MaxOf(D[1], Prod(Tail(D)))
+              T1 == {t \in {lo, lo + 1, hi, hi + 1} : t <= 30}          \* (rank entries of the domain stay <= 30)
+          IN  {Mk(m, 1, t) : t \in T1} \cup {Mk(m, t, 1) : t \in T1}
+              \cup {Mk(m, 2, t \div 2) : t \in {u \in {lo, lo + 2, hi, hi + 2} : (u % 2) = 0 /\ u >= 2 /\ u <= 60}}
+          : m \in 0..(N - 1)}
+
 TRRankVecs(shape) ==
     LET N == Len(shape)  top == IF N = 5 THEN 2 ELSE MaxTRRank IN
     {r \o <<r[1]>> : r \in [1..N -> 1..top]} \cup {[k \in 1..N |-> 1] \o <<2>>}                     \* last one: must raise
+    \cup TRBoundaryVecs(shape)
 
 AlgCfgs(shape) ==
     LET N == Len(shape) IN
@@ -292,7 +330,7 @@ VARIABLE cfg
 NoCfg == [op |-> "none"]
 Init == \/ cfg \in {[op |-> "shapeT", shape |-> s] : s \in ShapeSet}      \* -> matching tensors of that shape
         \/ cfg \in {[op |-> "shapeC", shape |-> s] : s \in ShapeSet}      \* -> rank configurations of that shape
-        \/ cfg = [op |-> "options", svds |-> Svds, iters |-> Iters, dtypes |-> Dtypes, rankspecs |-> RankSpecs,
+        \/ cfg = [op |-> "options", svds |-> Svds, iters |-> Iters, dtypes |-> Dtypes, rankspecs |-> RankSpecs, pow2s |-> Pow2s,
                  vias |-> Vias, fractions |-> Fractions]
 Next == \/ /\ cfg.op = "shapeT"
            /\ cfg' \in {[op |-> "place", shape |-> cfg.shape, idx |-> ix] :
